@@ -6,7 +6,7 @@ pid = sys.argv[1]; suf = sys.argv[2] if len(sys.argv) > 2 else ""
 wt = "/tmp/mut/%s%s" % (pid, suf)
 os.makedirs("/tmp/mut", exist_ok=True)
 if not os.path.exists(wt):
-    subprocess.check_call(["git", "-C", "/repo", "worktree", "add", "--detach", wt, "HEAD"], stdout=subprocess.DEVNULL)
+    subprocess.check_call(["git", "-C", "/repo", "worktree", "add", "-q", "--detach", wt, "HEAD"], stdout=subprocess.DEVNULL, stderr=subprocess.DEVNULL)
 p = [json.loads(l) for l in open("/verif/properties.jsonl") if json.loads(l)["id"] == pid][0]
 t = open("/verif/tools/mutant_prompt.txt").read()
 t = t.replace("{WT}", wt).replace("{TITLE}", p["title"]).replace("{STATEMENT}", p["statement"]).replace("{QUANT}", p["quantifier"]["text"]).replace("{ID}", pid)
